@@ -72,7 +72,11 @@ func (l *TileLog) checkpointLocked() ([]byte, string) {
 }
 
 // Current returns the published tree and size.
-func (l *TileLog) Current() (*reftree.Tree, uint64) { l.mu.Lock(); defer l.mu.Unlock(); return l.tree, l.size }
+func (l *TileLog) Current() (*reftree.Tree, uint64) {
+	l.mu.Lock()
+	defer l.mu.Unlock()
+	return l.tree, l.size
+}
 
 func parseN(parts []string) (uint64, int, bool) {
 	// parts: x001 x234 067[.p] [W]
